@@ -665,7 +665,10 @@ tcptran_ep_close(void *arg)
 		nni_pipe_close(p->npipe);
 	}
 	NNI_LIST_FOREACH (&ep->waitpipes, p) {
+		// Nobody else will release our hold on a pipe that finished
+		// negotiating but was never handed to an accept or connect.
 		nni_pipe_close(p->npipe);
+		nni_pipe_rele(p->npipe);
 	}
 	nni_mtx_unlock(&ep->mtx);
 }
